@@ -187,7 +187,10 @@ class LocationAction(object):
         last_fire = self.__stats.last_fire
         if last_fire != 0:
             time_since_last = ts - last_fire
-            if time_since_last < self.__fire_period_ns():
+            fire_period = self.__fire_period_ns()
+            # without a fire period nothing is too quick: a hit that was stamped before the last recorded one (another
+            # thread reached the tracepoint first) must not be dropped for its negative distance
+            if fire_period > 0 and time_since_last < fire_period:
                 return False
 
         return True
